@@ -45,6 +45,12 @@ ASSUMPTIONS = [
     "(p(y|f) = g_nu((y - f) / s) / s, so the mpmath integral for s = 1 minus log s is the reference for every decade of the noise), Beta with function sd <= "
     "1 / (5 sqrt(1 + scale)) (mpmath integral); measured on the unchanged tree: <= 1.2e-12.  Members of a batch are additionally compared with an un-batched likelihood "
     "carrying the same parameters",
+    "constraint dimension (part params): with a non-default constraint the valid range of a parameter is the range of THAT constraint (GreaterThan(lower + 1.5), Interval(lower + 0.5, lower + 30), "
+    "the default bounds with transform exp / inverse log); the conditional must read the value the public property reports (raw parameter through the registered constraint); the integrals are compared with "
+    "a fresh un-batched likelihood under the DEFAULT constraints carrying the same parameter values (every lattice value is valid under both), and with the absolute references wherever the class keeps the default lower bound",
+    "conditional over the function-value range (part condf): 'the conditional distributions have the documented parameters' is decided through log_prob of the RETURNED distribution and its gradient w.r.t. f "
+    "for |f| = 1e-6 .. 1e3 against the documented density in mpmath at 1e-9 (1 + |reference|) (measured on the unchanged tree: <= 4e-14 where it passes): a distribution whose parameters agree to 1e-16 but whose "
+    "log-density is floored (torch clamps probability parameters to [eps, 1 - eps]) does not have the documented density; fixed parameters noise = 1/4, deg_free = 4, Beta scale = 5",
     "a degree-2n monomial must miss the integral by s^2n n!; a different deficit is reported as MODEL-DRIFT (a rule exact to a higher degree "
     "would still satisfy the property)",
 ]
@@ -963,6 +969,8 @@ def param_items(states, refs, seed, thorough):
                   cond=[{a: [int(x) for x in q] for a, q in m.items()} for m in o["cond"]],
                   shape=[int(x) for x in o["shape"]], pshape=[int(x) for x in o["pshape"]],
                   reads=sorted([[int(x) for x in b], int(j), [int(x) for x in fi]] for b, j, fi in o["reads"]),
+                  con={p: dict(cls=str(q["class"]), lower=[int(x) for x in q["lower"]], upper=[int(x) for x in q["upper"]], bounded=bool(q["bounded"]), transform=str(q["transform"]),
+                               dlower=[int(x) for x in q["dlower"]]) for p, q in (o["con"].items() if names else ())}, conhow=str(c["conhow"]),
                   regime=str(o["regime"]), place=[[[int(x) for x in q] for q in pl] for pl in o["place"]], reach=int(o["reach"]), seed=seed)
         it["refs"] = {}
         for m in it["exps"]:
@@ -983,6 +991,38 @@ def func_items(states):
         if str(c["kind"]) == "func":
             by.setdefault((int(c["em"]), int(c["sg"])), []).append((int(c["ev"]), [int(x) for x in o["m"]], [int(x) for x in o["v"]]))
     return [dict(kind="func", em=em, sg=sg, m=sorted(v)[0][1], ev=[e for e, _, _ in sorted(v)], v=[q for _, _, q in sorted(v)]) for (em, sg), v in sorted(by.items())]
+
+
+CON_KW = {"noise": "noise_constraint", "deg_free": "deg_free_constraint", "scale": "scale_constraint"}
+
+
+def make_constraint(torch, gpytorch, cc):
+    """the constraint object of a class of Quadrature.tla (ConLower / ConUpper / ConTransform); None = leave the default"""
+    C = gpytorch.constraints
+    lo = float(qf(cc["lower"]))
+    if cc["cls"] == "default":
+        return None
+    if cc["cls"] == "gt" and cc["transform"] == "softplus" and not cc["bounded"]:
+        return C.GreaterThan(lo)
+    if cc["cls"] == "interval" and cc["transform"] == "sigmoid" and cc["bounded"]:
+        return C.Interval(lo, float(qf(cc["upper"])))
+    if cc["cls"] == "exp" and cc["transform"] == "exp" and not cc["bounded"]:
+        return C.Positive(transform=torch.exp, inv_transform=torch.log) if lo == 0 else C.GreaterThan(lo, transform=torch.exp, inv_transform=torch.log)
+    raise core.Machinery("unknown constraint class %r" % (cc,))
+
+
+def nondefault(it):
+    return any(cc["cls"] != "default" for cc in it.get("con", {}).values())
+
+
+def con_desc(it):
+    out = []
+    for p, cc in sorted(it.get("con", {}).items()):
+        if cc["cls"] != "default":
+            lo = float(qf(cc["lower"]))
+            out.append("%s_constraint=%s" % (p, {"gt": "GreaterThan(%g)" % lo, "interval": "Interval(%g, %g)" % (lo, float(qf(cc["upper"]))),
+                                                  "exp": ("Positive" if lo == 0 else "GreaterThan(%g, " % lo) + ("(" if lo == 0 else "") + "transform=exp)"}[cc["cls"]]))
+    return (" " + ", ".join(out) + (" (given to the constructor)" if it.get("conhow") == "ctor" else " (register_constraint after construction)")) if out else ""
 
 
 def set_params(torch, lik, it):
@@ -1023,10 +1063,13 @@ def run_param(torch, gpytorch, it):
     L = gpytorch.likelihoods
     name, bs, fs, n = it["lik"], tuple(it["bs"]), tuple(it["fs"]), it["n"]
     K = len(it["values"])
-    desc = "%s(batch_shape=%s) %s via %s, function values of shape %s, rule with %s nodes" % (
-        name, list(bs), " ; ".join(", ".join("%s=%s" % (p, float(qf(q))) for p, q in m.items()) for m in it["values"]) or "no parameter", it["route"], list(fs), n or "default 20")
+    desc = "%s(batch_shape=%s)%s %s via %s, function values of shape %s, rule with %s nodes" % (
+        name, list(bs), con_desc(it), " ; ".join(", ".join("%s=%s" % (p, float(qf(q))) for p, q in m.items()) for m in it["values"]) or "no parameter", it["route"], list(fs), n or "default 20")
     base = dict(ok=True, nontrivial=True, case=it)
     kb = ["param", name, it["layout"], it["route"], list(bs), list(fs), it["exps"], n]
+    nondef = nondefault(it)
+    if nondef:
+        kb = kb + [{p: cc["cls"] for p, cc in it["con"].items()}, it["conhow"]]
     out = []
 
     def res(aspect):
@@ -1046,7 +1089,15 @@ def run_param(torch, gpytorch, it):
             if name == "Bernoulli":
                 lik = L.BernoulliLikelihood()
             else:
-                lik = {"Laplace": L.LaplaceLikelihood, "StudentT": L.StudentTLikelihood, "Beta": L.BetaLikelihood}[name](batch_shape=torch.Size(bs))
+                cons = {p: make_constraint(torch, gpytorch, cc) for p, cc in it.get("con", {}).items()}
+                cons = {p: k for p, k in cons.items() if k is not None}
+                cls = {"Laplace": L.LaplaceLikelihood, "StudentT": L.StudentTLikelihood, "Beta": L.BetaLikelihood}[name]
+                if it.get("conhow", "ctor") == "ctor":
+                    lik = cls(batch_shape=torch.Size(bs), **{CON_KW[p]: k for p, k in cons.items()})
+                else:
+                    lik = cls(batch_shape=torch.Size(bs))
+                    for p, k in cons.items():
+                        lik.register_constraint("raw_" + p, k)
         set_params(torch, lik, it)
         return lik
     r = res("readback")
@@ -1095,11 +1146,16 @@ def run_param(torch, gpytorch, it):
             attrs = dict(c1=bc(d.concentration1), c0=bc(d.concentration0))
         else:
             attrs = dict(probs=bc(d.probs))
+        pub = {p: bc(getattr(lik, PARAM_ATTR[p])) for p in it["values"][0]}          # what the public property reports, broadcast like the conditional's parameters
         for b, j, fi in it["reads"]:
             cj = it["cond"][j - 1]
             fv = float(f[tuple(fi)])
             el = {a: float(t[tuple(b)]) for a, t in attrs.items()}
             where = "element %s (member %d, f=%g)" % (b, j, fv)
+            pv_ = {p: float(t[tuple(b)]) for p, t in pub.items()}
+            for p, gotp in (("noise", el["scale"] ** 2 if "scale" in el else None), ("deg_free", el.get("df")), ("scale", el["c1"] + el["c0"] - 2 if "c1" in el else None)):
+                if gotp is not None and p in pv_ and not abs(gotp - pv_[p]) <= 1e-12 * abs(pv_[p]) + 1e-15 * (2 if p == "scale" else 0):
+                    fail(r, p + "-vs-property", "%s: the returned %s reads %s = %.17g, likelihood.%s reports %.17g" % (where, tcls, p, gotp, p, pv_[p]))
             if name in ("Laplace", "StudentT"):
                 if el["loc"] != fv:
                     fail(r, "loc", "%s: loc = %.17g" % (where, el["loc"]))
@@ -1178,7 +1234,8 @@ def run_param(torch, gpytorch, it):
                 if math.sqrt(v_) <= W[j - 1] * 1.0000001:
                     e_, l_ = ref.laplace_one_sided(mp, qf(vj["noise"]).numerator / mp.mpf(qf(vj["noise"]).denominator), m_, v_, y_)
                     want, how = float(e_ if method == "expected_log_prob" else l_), "closed form of the documented Laplace(f, sqrt(noise))"
-            elif wrow[row] == W[j - 1]:
+            elif wrow[row] == W[j - 1] and it["con"][{"StudentT": "deg_free", "Beta": "scale"}[name]]["lower"] == it["con"][{"StudentT": "deg_free", "Beta": "scale"}[name]]["dlower"]:
+                # (the references are keyed by the exponent above the DEFAULT lower bound of deg_free / scale: they apply whenever the class keeps that bound)
                 if name == "StudentT":
                     G = it["refs"]["%d/%d" % (it["exps"][j - 1]["deg_free"], i)]
                     want = float(mp.mpf(G["elp" if method == "expected_log_prob" else "lm"]) - mp.log(mp.mpf(qf(vj["noise"]).numerator) / qf(vj["noise"]).denominator) / 2)
@@ -1191,8 +1248,9 @@ def run_param(torch, gpytorch, it):
                 r["meas_err"] = max(r.get("meas_err", 0.0), abs(g - want) / (1 + abs(want)))
                 if not abs(g - want) <= PARAM_TOL * (1 + abs(want)):
                     fail(r, "no-truncation-regime", "%s: %s = %.15g, %s gives %.15g (error %.3e, allowed %.1e)" % (where, method, g, how, want, abs(g - want), PARAM_TOL * (1 + abs(want))))
-            if K > 1:
-                # fresh object with the same state: member j alone, un-batched, same function value
+            if K > 1 or nondef:
+                # fresh object with the same state: member j alone, un-batched, DEFAULT constraints, the same parameter VALUES, same function value
+                n_ref += 1 if nondef else 0
                 if j not in twins:
                     twins[j] = scalar_twin(torch, gpytorch, it, j - 1)
                 fd1 = gpytorch.distributions.MultivariateNormal(mean[tuple(fi)].reshape(1), var[tuple(fi)].reshape(1, 1))
@@ -1201,7 +1259,7 @@ def run_param(torch, gpytorch, it):
                 if not ok:
                     fail(r, "raises", "un-batched twin: %s" % one)
                 elif not abs(g - one) <= PARAM_TOL * (1 + abs(one)):
-                    fail(r, "member-vs-scalar", "%s: %s = %.15g in the batch, %.15g from an un-batched likelihood with the parameters of member %d" % (where, method, g, one, j))
+                    fail(r, "member-vs-scalar" if not nondef else "vs-default-constraint-twin", "%s: %s = %.15g, %.15g from an un-batched default-constrained likelihood with the parameter values of member %d" % (where, method, g, one, j))
         if n_ref == 0:
             return [dict(machinery="C13 params: no element of %s could be referenced" % desc)]
         if r["ok"] and it["layout"] == "batch" and it["route"] == "setter-tensor" and per_row and set(it["exps"][0].values()) == {-6} and set(it["exps"][1].values()) == {0}:
@@ -1356,3 +1414,223 @@ def replay_aggregate(case):
     results = core.pmap(worker, items, chunksize=1)
     table = {k: v for k, v in grid_table(results).items() if k[2] == case["method"]}
     return [dict(ok=False, sig=s, detail=d) for s, d, _ in shrink_verdicts(table)]
+
+
+# =====================================================================================================================================
+# (g) the conditional over the whole range of the function values (Quadrature.tla part "condf"): log_prob of the returned distribution
+#     and its gradient with respect to f, |f| = 1e-6 .. 1e3, for every likelihood whose conditional the library builds
+# =====================================================================================================================================
+CONDF_TOL = 1e-9         # relative to 1 + |reference| (measured on the unchanged tree: <= 4e-14 where it passes; 3.4e-11 for a Bernoulli conditional rebuilt on torch.special.log_ndtr)
+CONDF_LAYOUTS = ("flat", "rows")
+
+
+def condf_items(states, seed):
+    """one item = (likelihood, observation class, layout) with EVERY magnitude / sign / direction of the lattice in one tensor (a batch mixes 1e-6 and 1e3)"""
+    groups = {}
+    for st in states:
+        c, o = st["c"], st["out"]
+        lik = str(c["lik"])
+        if lik == "Softmax":
+            key = (lik, bool(c["mix"]), int(c["obs"]))
+            case = dict(em=int(c["em"]), dir=[int(x) for x in c["dir"]], f=[[int(x) for x in q] for q in o["f"]], logits=[[int(x) for x in q] for q in o["logits"]],
+                        gaps=[[int(x) for x in q] for q in o["gaps"]], cls=str(o["class"]), W=[[int(x) for x in row] for row in o["W"]])
+        else:
+            key = (lik, False, str(c["obs"]))
+            case = dict(em=int(c["em"]), sg=int(c["sg"]), f=[int(x) for x in o["f"]], y=[int(x) for x in o["y"]], offset=[int(x) for x in o["offset"]],
+                        lin=[int(x) for x in o["lin"]], slope=[int(x) for x in o["slope"]], par={k: [int(x) for x in v] for k, v in o["par"].items()})
+        groups.setdefault(key, []).append(case)
+    out = []
+    for k, (key, cases) in enumerate(sorted(groups.items(), key=repr)):
+        cases.sort(key=lambda q: (q["em"], repr(q.get("dir", q.get("sg")))))
+        for j, lay in enumerate(CONDF_LAYOUTS):
+            out.append(dict(kind="condf", lik=key[0], mix=key[1], obs=key[2], layout=lay, cases=cases, seed=seed * 131 + 2 * k + j))
+    return out
+
+
+def condf_ref(mp, name, par, f, y):
+    """(log p(y|f), d/df log p(y|f)) of the documented one-dimensional conditional, f and y the floats handed to the code"""
+    f, y = mp.mpf(f), mp.mpf(y)
+    if name == "Bernoulli":
+        s = 2 * y - 1
+        return mp.log(mp.ncdf(s * f)), s * mp.npdf(s * f) / mp.ncdf(s * f)
+    if name == "Laplace":
+        b = mp.sqrt(par["noise"])
+        return -mp.log(2 * b) - abs(y - f) / b, mp.sign(y - f) / b
+    if name == "StudentT":
+        nu, s = par["deg_free"], mp.sqrt(par["noise"])
+        t = (y - f) / s
+        return ref.logp(mp, "stu", dict(noise=par["noise"], df=nu), y, f), (nu + 1) * t / (s * (nu + t * t))
+    if name == "Beta":
+        sc = par["scale"]
+        sg = 1 / (1 + mp.exp(-f))
+        a, b = sg * sc + 1, (1 - sg) * sc + 1
+        return ref.logp(mp, "beta", dict(scale=sc), y, f), sc * sg * (1 - sg) * (mp.digamma(b) - mp.digamma(a) + mp.log(y) - mp.log1p(-y))
+    raise core.Machinery("condf_ref: " + name)
+
+
+def run_condf(torch, gpytorch, it):
+    D = torch.float64
+    mp = ref.mpm()
+    L = gpytorch.likelihoods
+    name, cases, lay = it["lik"], it["cases"], it["layout"]
+    n = len(cases)
+    if n % 2 or n < 4:
+        return [dict(machinery="C13 condf: %d cases in the group %s" % (n, [name, it["mix"], it["obs"]]))]
+    lead = (2, n // 2) if lay == "rows" else (n,)
+    g = torch.Generator().manual_seed(it["seed"])
+    w = (0.5 + torch.rand(n, generator=g, dtype=D)).reshape(lead)        # upstream gradient: must be propagated element by element
+    base = dict(ok=True, nontrivial=True, case=it)
+    out = []
+
+    def results(aspect, keyf):
+        rs = [dict(base, key=["condf", name, it["mix"], it["obs"], lay, keyf(q), aspect], sig="C13/condf/%s/%s" % (name + ("" if name != "Softmax" or it["mix"] else "-identity"), aspect)) for q in cases]
+        out.extend(rs)
+        return rs
+
+    def fail(r, detail):
+        if r["ok"]:
+            r.update(ok=False, detail="%s: %s" % (desc, detail))
+
+    if name == "Softmax":
+        W = cases[0]["W"]
+        C, Fd = len(W), len(W[0])
+        if n // 2 == Fd or n == Fd:
+            return [dict(machinery="C13 condf: the number of points equals the number of features (legacy transposed input path)")]
+        desc = "SoftmaxLikelihood(num_classes=%d, mixing_weights=%s)%s, observed class %d, %d latent vectors of magnitude 1e-6 .. 1e3 as one %s batch" % (
+            C, it["mix"], " W=%s" % W if it["mix"] else "", it["obs"] - 1, n, list(lead))
+        keyf = lambda q: [q["em"], q["dir"]]
+        rv, rg, ro = results("log_prob", keyf), results("gradient", keyf), results("log-odds", keyf)
+
+        def build():
+            if it["mix"]:
+                lik = L.SoftmaxLikelihood(num_features=Fd, num_classes=C)
+                with torch.no_grad():
+                    lik.mixing_weights.copy_(torch.tensor(W, dtype=D))
+            else:
+                lik = L.SoftmaxLikelihood(num_classes=C, mixing_weights=False)
+            return lik
+        f0 = torch.tensor([[float(qf(x)) for x in q["f"]] for q in cases], dtype=D).reshape(*lead, Fd)
+        f = f0.clone().requires_grad_(True)
+        yobs = torch.full(lead, it["obs"] - 1, dtype=torch.long)
+
+        def call():
+            import warnings
+            with warnings.catch_warnings():
+                warnings.simplefilter("ignore")
+                d = build()(f)
+            lp = d.log_prob(yobs)
+            gr = torch.autograd.grad((lp * w).sum(), f)[0]
+            allc = torch.stack([d.log_prob(torch.full(lead, cc, dtype=torch.long)) for cc in range(C)], -1)
+            return type(d).__name__, lp.detach(), gr, allc.detach()
+        ok, got = core.guarded(call)
+        if not ok:
+            for r in rv:
+                r.update(ok=False, sig=r["sig"] + "/raises", detail="%s: %s" % (desc, got))
+            return out
+        tname, lp, gr, allc = got
+        if tname != "Categorical" or tuple(lp.shape) != tuple(lead):
+            for r in rv:
+                r.update(ok=False, sig=r["sig"] + "/class", detail="%s: the conditional is a %s, log_prob has shape %s" % (desc, tname, list(lp.shape)))
+            return out
+        lp, gr, allc, wf = lp.reshape(n), gr.reshape(n, Fd), allc.reshape(n, C), w.reshape(n)
+        worst = 0.0
+        for i, q in enumerate(cases):
+            fv = [mp.mpf(float(x)) for x in f0.reshape(n, Fd)[i]]
+            z = [sum(mp.mpf(W[cc][a]) * fv[a] for a in range(Fd)) for cc in range(C)]
+            zm = max(z)
+            lse = zm + mp.log(sum(mp.exp(x - zm) for x in z))
+            o = it["obs"] - 1
+            want = z[o] - lse
+            where = "latent vector %s (logits %s, observed class is %s)" % ([float(x) for x in fv], [float(x) for x in z], q["cls"])
+            e = abs(float(lp[i]) - float(want)) / (1 + abs(float(want)))
+            worst = max(worst, e)
+            if not e <= CONDF_TOL:
+                fail(rv[i], "%s: log_prob = %.15g, documented log softmax(W f)[y] = %.15g" % (where, float(lp[i]), float(want)))
+            sm = [mp.exp(x - lse) for x in z]
+            for a in range(Fd):
+                dw = mp.mpf(W[o][a]) - sum(sm[cc] * W[cc][a] for cc in range(C))
+                gi = float(gr[i, a]) / float(wf[i])
+                e = abs(gi - float(dw)) / (1 + abs(float(dw)))
+                worst = max(worst, e)
+                if not e <= CONDF_TOL:
+                    fail(rg[i], "%s: d log_prob / d f[%d] = %.15g, documented (onehot - softmax) W = %.15g" % (where, a, gi, float(dw)))
+            # the spec's exact log-odds: log p(c|f) - log p(most likely|f) = z_c - max z, for every class (unbounded below)
+            top = float(allc[i].max())
+            for cc in range(C):
+                gap = float(qf(q["gaps"][cc]))
+                e = abs((float(allc[i, cc]) - top) - gap) / (1 + abs(gap))
+                if not e <= CONDF_TOL:
+                    fail(ro[i], "%s: log p(class %d) - log p(most likely class) = %.15g, the logit difference is %.15g" % (where, cc, float(allc[i, cc]) - top, gap))
+        out[0]["meas"] = dict(kind="condf", lik=name, worst=worst)
+        if lay == "rows" and it["obs"] == 1:
+            i = max(range(n), key=lambda j: -float(qf(cases[j]["gaps"][0])))
+            out[0]["sample"] = dict(case=desc, logits=[float(qf(x)) for x in cases[i]["logits"]], log_prob=float(lp[i]), documented=float(qf(cases[i]["gaps"][0])))
+        return out
+    # ---- one-dimensional likelihoods -------------------------------------------------------------------------------------------------
+    par = {k: float(qf(v)) for k, v in cases[0]["par"].items() if k != "none"}
+    desc = "%sLikelihood %s, observation class %s, function values +-1e-6 .. +-1e3 as one %s batch" % (name, par, it["obs"], list(lead))
+    keyf = lambda q: [q["em"], q["sg"]]
+    rv, rg = results("log_prob", keyf), results("gradient", keyf)
+
+    def build():
+        if name == "Bernoulli":
+            return L.BernoulliLikelihood()
+        lik = {"Laplace": L.LaplaceLikelihood, "StudentT": L.StudentTLikelihood, "Beta": L.BetaLikelihood}[name]()
+        for p, v in par.items():
+            setattr(lik, PARAM_ATTR[p], torch.tensor(v, dtype=D))
+        return lik
+    f0 = torch.tensor([float(qf(q["f"])) for q in cases], dtype=D).reshape(lead)
+    if name in ("Laplace", "StudentT") and it["obs"] != "fixed":
+        y = f0 + torch.tensor([float(qf(q["offset"])) for q in cases], dtype=D).reshape(lead)        # y = f + offset
+    else:
+        y = torch.tensor([float(qf(q["y"])) for q in cases], dtype=D).reshape(lead)
+    f = f0.clone().requires_grad_(True)
+
+    def call():
+        d = build()(f)
+        lp = d.log_prob(y)
+        gr = torch.autograd.grad((lp * w).sum(), f)[0]
+        return type(d).__name__, lp.detach(), gr
+    ok, got = core.guarded(call)
+    if not ok:
+        for r in rv:
+            r.update(ok=False, sig=r["sig"] + "/raises", detail="%s: %s" % (desc, got))
+        return out
+    tname, lp, gr = got
+    if tname != name or tuple(lp.shape) != tuple(lead):
+        for r in rv:
+            r.update(ok=False, sig=r["sig"] + "/class", detail="%s: the conditional is a %s, log_prob has shape %s" % (desc, tname, list(lp.shape)))
+        return out
+    lp, gr, wf, ff, yy = lp.reshape(n), gr.reshape(n), w.reshape(n), f0.reshape(n), y.reshape(n)
+    mpar = {k: mp.mpf(v) for k, v in par.items()}
+    worst = 0.0
+    for i, q in enumerate(cases):
+        fv, yv = float(ff[i]), float(yy[i])
+        want, dw = condf_ref(mp, name, mpar, fv, yv)
+        where = "f = %.17g, y = %.17g" % (fv, yv)
+        e = abs(float(lp[i]) - float(want)) / (1 + abs(float(want)))
+        if not e <= CONDF_TOL:
+            fail(rv[i], "%s: log_prob of the returned %s = %.15g, documented log p(y|f) = %.15g" % (where, tname, float(lp[i]), float(want)))
+        else:
+            worst = max(worst, e)
+        gi = float(gr[i]) / float(wf[i])
+        e = abs(gi - float(dw)) / (1 + abs(float(dw)))
+        if not e <= CONDF_TOL:
+            fail(rg[i], "%s: d log_prob / d f = %.15g, derivative of the documented log density = %.15g" % (where, gi, float(dw)))
+        else:
+            worst = max(worst, e)
+        if name == "Laplace":
+            # the spec's exact values: log p + log(2b) = -|y - f| / b, slope sign(y - f) / b
+            b = math.sqrt(par["noise"])
+            lin, slope = float(qf(q["lin"])), float(qf(q["slope"]))
+            if not abs(float(lp[i]) + math.log(2 * b) - lin) <= 1e-12 * (1 + abs(lin)):
+                fail(rv[i], "%s: log_prob + log(2b) = %.15g, Quadrature.tla has -|y - f| / b = %.15g" % (where, float(lp[i]) + math.log(2 * b), lin))
+            if not abs(gi - slope) <= 1e-12 * (1 + abs(slope)):
+                fail(rg[i], "%s: d log_prob / d f = %.15g, Quadrature.tla has sign(y - f) / b = %.15g" % (where, gi, slope))
+    out[0]["meas"] = dict(kind="condf", lik=name, worst=worst)
+    if lay == "rows":
+        out[0]["sample"] = dict(case=desc, f=float(ff[-1]), y=float(yy[-1]), log_prob=float(lp[-1]), gradient=float(gr[-1]) / float(wf[-1]))
+    return out
+
+
+RUNNERS["condf"] = run_condf
